@@ -1066,6 +1066,22 @@ fn gen_c07(rng: &mut Rng, n: u64, lines: &mut Vec<String>) {
 			lines.push(format!("http POST {ct} none {} {}", hexs(&wsb[..k]), hex(format!("{}{req}", &wsb[k..]).as_bytes())));
 		}
 		lines.push(format!("http POST {ct} {} {}", mr + 1, hexs("{\"jsonrpc\":\"2.0\",\"id\":1,\"method\":\"echo\"}")));
+		// a Content-Length that claims less than the body really holds (possible wherever the body is
+		// application-supplied: TowerService, http::call_with_service*): the real size decides
+		for total in [mr as i64 + 1, mr as i64 + 40, mr as i64 * 3] {
+			let pad = total - 52;
+			if pad < 0 {
+				continue;
+			}
+			let req = format!("{{\"jsonrpc\":\"2.0\",\"id\":1,\"method\":\"echo\",\"params\":\"{}\"}}", "r".repeat(pad as usize));
+			let cl = *rng.pick(&[0i64, 1, 52, mr as i64 - 1, mr as i64]);
+			let cut = rng.below(req.len() as u64 + 1) as usize;
+			if rng.chance(1, 2) {
+				lines.push(format!("http POST {ct} {cl} {}", hexs(&req)));
+			} else {
+				lines.push(format!("http POST {ct} {cl} {} {}", hex(&req.as_bytes()[..cut]), hex(&req.as_bytes()[cut..])));
+			}
+		}
 		lines.push(sentinel(1));
 	}
 }
@@ -1094,6 +1110,8 @@ fn gen_c19(rng: &mut Rng, n: u64, lines: &mut Vec<String>) {
 			lines.push(format!("http POST {} none {}", hexs(*rng.pick(&near)), hex(&body)));
 			lines.push(format!("http POST {} none {}", hexs(*rng.pick(&near)), hex(&body)));
 			lines.push(format!("http POST none none {}", hex(&body)));
+			lines.push(format!("http {} {} none {}", *rng.pick(&methods), hexs(*rng.pick(&near)), hex(&body)));
+			lines.push(format!("http {} none none {}", *rng.pick(&methods), hex(&body)));
 			lines.push(format!("http POST {},{} none {}", hexs("text/plain"), ct(rng), hex(&body)));
 			lines.push(format!("http POST {},{} none {}", ct(rng), hexs("text/plain"), hex(&body)));
 		}
